@@ -22,6 +22,11 @@ SIM_ASSUMPTIONS = [
     "one total order of wire-tap, hook and API events per run; API events are logged at the client boundary (call before invoking, return after)",
 ]
 
+E2E_ASSUMPTIONS = [
+    "E2E engine: the real client_main_inner / run_listener run in-process on loopback sockets and real time; schedules are whatever the OS and tokio's multi-thread runtime produce",
+    "a timeout is a violation only together with a process-quiescence witness (/proc/self/task: all threads sleeping, CPU time not moving); otherwise inconclusive",
+]
+
 PROPS = {
     "C09": {
         "level": "exploration",
@@ -194,6 +199,45 @@ PROPS = {
             "the local side is a scripted AsyncBufRead + AsyncWrite; an injected read error is one-shot and followed by EOF, as sockets behave",
             "'promptly' = the bridge future has resolved by the second quiescent point after the error was returned to it",
             "a bridge whose local reader is idle forever, or whose far application never reads, legitimately stays pending; only the half-close and data oracles apply then",
+        ],
+    },
+    "C14": {
+        "level": "exploration",
+        "jobs": {
+            "quick": [job("e2e", "e2e", "verif", "c14", 8)],
+            "thorough": [job("e2e", "e2e", "verif", "c14", 16)],
+        },
+        "required_targets": {"any": ["expected_101", "expected_refusal", "indistinguishability_comparisons", "tunnels_probed"]},
+        "assumptions": COMMON_ASSUMPTIONS + E2E_ASSUMPTIONS + [
+            "the decision predicate is written from the statement: header values compared case-insensitively as whole values after HTTP's own optional-whitespace trimming; PSK compared byte for byte",
+            "cells the statement leaves open (duplicate header with one valid value, empty Sec-WebSocket-Key) are executed and recorded without verdict",
+            "the stub backend's reply is a function of method and headers only, and it records what it was sent",
+        ],
+    },
+    "C17": {
+        "level": "exploration",
+        "jobs": {
+            "quick": [job("e2e", "e2e", "verif", "c17", 1)],
+            "thorough": [job("e2e", "e2e", "verif", "c17", 3)],
+        },
+        "exhaustive_claim": True,
+        "required_targets": {"any": ["matrix_cells_executed", "reload_cycles", "certificate_request_probes"]},
+        "assumptions": COMMON_ASSUMPTIONS + E2E_ASSUMPTIONS + [
+            "certificates are generated with rcgen at run time; 'reaches the server' = GET /health is answered 200 over the TLS stream (with TLS 1.3 a rejected client certificate only surfaces at the first read)",
+            "whether a CertificateRequest was sent is observed with a recording rustls ResolvesClientCert",
+        ],
+    },
+    "C19": {
+        "level": "fault_enumeration",
+        "jobs": {
+            "quick": [job("backoff", "mux", "verif", "c19b", 1), job("e2e", "e2e", "verif", "c19", 8, timeout=600)],
+            "thorough": [job("backoff", "mux", "verif", "c19b", 4), job("e2e", "e2e", "verif", "c19", 16, timeout=1800)],
+        },
+        "required_targets": {"any": ["backoff_tuples_x_reset_patterns", "runs_with_failed_attempts", "orderly_close_runs", "conversations_across_outage"]},
+        "assumptions": COMMON_ASSUMPTIONS + E2E_ASSUMPTIONS + [
+            "the gate timestamps accepted attempts; a delay is measured from the instant the previous attempt failed (RST/close at accept, handshake timeout after 1 s, cut instant)",
+            "lower bounds on delays are hard (a sleep cannot be short, 5 ms slack); upper bounds use the minimum over repeats with tolerance max(150 ms, 50%) and need a quiescence witness, else inconclusive",
+            "true ECONNREFUSED attempts cannot be timestamped by the gate and are not part of the timing oracle",
         ],
     },
 }
